@@ -17,7 +17,6 @@ pub fn exec(func: &str, a: &mut Args) -> String {
                     p.normals().len(), p.normals().iter().map(|n| d2::fv(&n.into_inner())).collect::<Vec<_>>().join(" ")) } }
         // the modelled 3-D quickhull: the eigen-decomposition of the covariance matrix of the normalised cloud (nalgebra's
         // `symmetric_eigen`, not transliterated) is an observed input of the model: `<evec columns, evals> ;; <output>`.
-        // Only the full-dimensional branch is modelled: a cloud the code treats as planar / linear / a point prints `lowdim`.
         "hull3m" => { let n = a.u(); let pts: Vec<_> = (0..n).map(|_| d3::p(a)).collect();
             if pts.len() < 3 { return "lowdim".into(); }
             let mut np = pts.clone();
@@ -30,10 +29,7 @@ pub fn exec(func: &str, a: &mut Args) -> String {
             let (evec, eval) = (eig.eigenvectors, eig.eigenvalues);
             let obs = format!("{} {} {} {} {} {}", d3::hv(&evec.column(0).into_owned()), d3::hv(&evec.column(1).into_owned()), d3::hv(&evec.column(2).into_owned()),
                 hx(eval[0]), hx(eval[1]), hx(eval[2]));
-            let mut ev = [eval[0], eval[1], eval[2]];
-            ev.sort_by(|a, b| b.partial_cmp(a).unwrap_or(std::cmp::Ordering::Equal));
-            let dim = ev.iter().take_while(|e| !(e.abs() <= 1.0e-7)).count();
-            let out = if dim != 3 { "lowdim".to_string() } else { match try_convex_hull(&pts) {
+            let out = { match try_convex_hull(&pts) {
                 Err(e) => format!("err {:?}", e).replace(' ', "_").replacen("err_", "err ", 1),
                 Ok((v, t)) => format!("{} {} {} {}", v.len(), v.iter().map(d3::fp).collect::<Vec<_>>().join(" "), t.len(),
                     t.iter().map(|t| format!("{} {} {}", t[0], t[1], t[2])).collect::<Vec<_>>().join(" ")) } };
